@@ -80,6 +80,9 @@ void cstl_slist_push_back(struct cstl_slist * const sl, void * const e)
 
 void * cstl_slist_pop_front(struct cstl_slist * const sl)
 {
+    if (sl->count == 0) {
+        return NULL;
+    }
     return __cstl_slist_element(sl, __cstl_slist_erase_after(sl, &sl->h));
 }
 
